@@ -425,7 +425,40 @@ def decide(prop, tier, seed, cfg, scratch, index, spec_dir, contracts_dir, evide
             undecided.append(u)
     bottom_bad = [b for b in bottoms if verdicts[b['uid']]['verdict'] != 'discharged']
     # Kani leaf units of this property (complete proofs of functions Verus cannot ingest)
-    kani_results = [engine.run_kani(k) for k in engine.kani_units(prop)]
+    all_kani = engine.kani_units(prop)
+    kani_results = [engine.run_kani(k) for k in all_kani if k.get('mode', 'always') == 'always']
+    # on_change: complete Kani proofs of contracts Verus ASSUMES, run when the assumed function's text differs from the baseline
+    for k in all_kani:
+        if k.get('mode') == 'on_change' and k.get('backs') in changed_assumed:
+            kani_results.append(engine.run_kani(k, playback=True))
+    # tiebreak: loop-free Kani twins of the contracts of small arithmetic leaves. When Verus' proof of such a unit does not go
+    # through on the current text (failed or undecided), CBMC decides the same contract for that text: a proof discharges the
+    # unit (second back end, recorded); a refutation comes with a concrete counterexample that is executed natively.
+    tiebreaks = []
+    for k in all_kani:
+        if k.get('mode') != 'tiebreak' or (k.get('tier') == 'thorough' and tier != 'thorough'):
+            continue
+        for u in list(failed) + list(undecided):
+            if u['ident'] != k.get('backs'):
+                continue
+            kr = engine.run_kani(k, playback=True)
+            tiebreaks.append(kr)
+            v = verdicts[u['uid']]
+            if kr['verdict'] == 'discharged':
+                (failed if u in failed else undecided).remove(u)
+                v['verus_errors_overridden'] = [e['message'] for e in v['errors']]
+                v['errors'] = []
+                v['verdict'] = 'discharged'
+                v['proved_by'] = 'kani tie-break %s (%s)' % (k['name'], k['what'])
+                proved.append(u)
+            elif kr['verdict'] == 'failed':
+                if u in undecided:
+                    undecided.remove(u)
+                    failed.append(u)
+                    v['verdict'] = 'failed'
+                    v['errors'] = [{'kind': 'failed', 'message': 'Kani: ' + '; '.join(kr['failed_checks'])[:200],
+                                    'rendered': kr['tail'], 'clause': k['what'], 'text': ''}]
+                v['kani_counterexample'] = dict(kr['counterexample'] or {}, harness=k['name'])
     kani_failed = [k for k in kani_results if k['verdict'] == 'failed']
     kani_undecided = [k for k in kani_results if k['verdict'] == 'undecided']
     for k in kani_results:
@@ -511,6 +544,17 @@ def decide(prop, tier, seed, cfg, scratch, index, spec_dir, contracts_dir, evide
                     'replay_cmd': './check %s --replay %s' % (prop, rp),
                 })
                 found = bool(witness and witness.get('status') == 'found')
+                cex = verdicts[u['uid']].get('kani_counterexample')
+                if cex and cex.get('native_fails'):
+                    # the verifier's own counterexample, executed natively on the real function
+                    d_ = json.load(open(rp))
+                    d_['witness'] = {'status': 'found', 'case': 'kani:' + cex['harness'], 'input': {'values': cex['values']},
+                                     'detail': 'Kani counterexample for %s, executed natively on the real code: %s'
+                                               % (cex['harness'], cex.get('native_panic')),
+                                     'rerun_cmd': 'python3 %s %s' % (os.path.join(VERIF, 'tools', 'kani_replay.py'), cex['harness'])}
+                    d_['search_witness'] = witness
+                    write_json(rp, d_)
+                    found = True
                 violations.append((rp, found, oid))
     if kani_failed:
         if witness is None:
@@ -607,8 +651,10 @@ def decide(prop, tier, seed, cfg, scratch, index, spec_dir, contracts_dir, evide
             'repo_src_sha256': index['repo_src_sha256'],
             'known_findings_matched': [k.get('what') for k, _, _ in known_hits],
             'assumed_functions_modified': changed_assumed,
-            'kani_units': [{kk: k[kk] for kk in ('name', 'verdict', 'failed_checks', 'wall_s', 'cmd', 'backs', 'complete', 'what')}
-                           for k in kani_results],
+            'kani_units': [{kk: k.get(kk) for kk in ('name', 'verdict', 'failed_checks', 'wall_s', 'cmd', 'backs', 'complete', 'what', 'mode', 'counterexample')}
+                           for k in kani_results + tiebreaks],
+            'kani_standby': [{'name': k['name'], 'mode': k['mode'], 'backs': k['backs'], 'what': k['what']} for k in all_kani
+                             if k.get('mode', 'always') != 'always' and k['name'] not in [t['name'] for t in kani_results + tiebreaks]],
             'status': status,
             'not_decided': cfg.get('not_decided', []),
             'witness_search': witness,
